@@ -319,7 +319,7 @@ fn interrupted(p: &Prog, t0: &Trace0, triggers: &[u32]) -> Result<RunStats, (Str
     let mut dead = [false; 256];
     let mut prev_boundary: Option<Cpu> = None;
     let mut ti = 0;
-    let horizon = t0.edges + 1500;
+    let horizon = (t0.edges + 1500).max(triggers.last().cloned().unwrap_or(0) + 1500);
     let mut quiescent = None;
     let mut resumed_at: Option<Cpu> = None;
     let mut stopped = 0;
@@ -389,8 +389,8 @@ fn interrupted(p: &Prog, t0: &Trace0, triggers: &[u32]) -> Result<RunStats, (Str
             if cpu.pc == 2 {
                 // ---- interrupt entry ----
                 st.entries += 1;
-                if st.entries > 64 {
-                    return Err(("entry/re-entered-endlessly".into(), "more than 64 entries for at most two triggers".into()));
+                if st.entries as usize > 64 + 2 * triggers.len() {
+                    return Err(("entry/re-entered-endlessly".into(), format!("more than {} entries for {} triggers", 64 + 2 * triggers.len(), triggers.len())));
                 }
                 let ram = m.bus().memory();
                 let ret = ram[cpu.sp as usize];
@@ -470,7 +470,7 @@ fn interrupted(p: &Prog, t0: &Trace0, triggers: &[u32]) -> Result<RunStats, (Str
     for a in 0..240usize {
         let dead = dead[a];
         if a == CNT as usize {
-            if p.isr > 0 && ram[a] as u32 != st.entries {
+            if p.isr > 0 && ram[a] as u32 != st.entries % 256 {
                 return Err(("entry/counter-mismatch".into(), format!("ISR counter cell {} != observed entries {}", ram[a], st.entries)));
             }
             continue;
@@ -597,6 +597,13 @@ fn check_prog(pi: usize, p: &Prog, pairs: bool, out: &mut Out) {
                 scheds.push(vec![t1, t2]);
             }
         }
+    }
+    // many presses in one run: 400 presses 53 edges apart, a burst of 40 presses 7 edges apart, and one
+    // press per edge for 200 edges (the counter cell wraps at 256)
+    if p.isr == 1 && p.enable_bit && p.name.matches(", ").count() == 0 {
+        scheds.push((0..400).map(|k| 60 + 53 * k).collect());
+        scheds.push((0..40).map(|k| 70 + 7 * k).collect());
+        scheds.push((0..200).map(|k| 50 + k).collect());
     }
     for s in &scheds {
         out.runs += 1;
